@@ -366,6 +366,24 @@ def _canary(rule):
 
 def det1(ctx, c):
     _emit(ctx, c, "DET-1")
+    # a module- or class-level name bound to a one-shot iterator (generator expression, iter(), map(), filter(), zip()) is state:
+    # every use consumes it, so what a membership test or loop over it sees depends on what ran before
+    repo = ctx.repo
+    for m in repo.modules.values():
+        if not (m.rel.startswith("cocoasm/") or m.rel in ("assembler.py", "file_util.py")):
+            continue
+        scopes = [("", m.assigns)] + [(cl.name + ".", cl.assigns) for cl in m.classes.values()]
+        for prefix, assigns in scopes:
+            for name, val in assigns.items():
+                one_shot = isinstance(val, ast.GeneratorExp) or (isinstance(val, ast.Call) and U(val.func) in ("iter", "map", "filter", "zip", "reversed", "enumerate"))
+                if not one_shot:
+                    continue
+                uses = sum(1 for f in repo.all_funcs() if f.module is m or True for x in ast.walk(f.node)
+                           if (isinstance(x, ast.Name) and x.id == name and not prefix) or (isinstance(x, ast.Attribute) and prefix and x.attr == name))
+                if uses:
+                    c.finding("%s:%s%s" % (m.rel, prefix, name), "one-shot iterator bound at import time",
+                              "%s%s in %s is `%s`, an iterator that is consumed by its first uses: membership tests and loops over it give other answers later in the same process "
+                              "(the second assembly of the same source differs from the first)" % (prefix, name, m.rel, U(val)[:60]), "%s:%d" % (m.rel, getattr(val, "lineno", 0)))
 
 
 def det2(ctx, c):
